@@ -61,7 +61,8 @@ class IntShift(Unit):
         self.smax = smax if smax is not None else (N + 2 if k == 1 else (N + 1 if k == 2 else 1))
         self.cplx, self.crop, self.t0, self.as_quantity = cplx, crop, t0, as_quantity
         self.name = f"int-N{N}-s{'x'.join(map(str, sshape)) or '0'}-sh{'x'.join(map(str, shift_shape)) or 'scalar'}" \
-                    f"-{'c' if cplx else 'r'}{'-crop' if crop else ''}{'' if t0 else '-not0'}{'-q' if as_quantity else ''}"
+                    f"-{'c' if cplx else 'r'}{'-crop' if crop else ''}{'' if t0 else '-not0'}" \
+                    f"{('-q' if as_quantity is True else '-q' + as_quantity.replace('*', '')) if as_quantity else ''}"
         self.bounds = {"N": N, "sample_shape": list(sshape), "shift_shape": list(shift_shape), "complex": cplx,
                        "crop": crop, "start_time": t0, "shift_as_time_quantity": as_quantity, "|s|<=": self.smax}
 
@@ -71,7 +72,9 @@ class IntShift(Unit):
         z = S.carray("z", shape) if self.cplx else S.rarray("z", shape)
         if self.as_quantity:
             dt = Fraction(1, 250000)           # concrete 250 kHz: keeps (shift*sample_rate) linear
-            sr = 250 * u.kHz
+            # unit pair of (shift, sample_rate): "ms*kHz" has scale 1, the others need the product reduced to a pure number
+            self.qu, self.ru = {True: ("ms", "kHz"), "us*kHz": ("us", "kHz"), "s*MHz": ("s", "MHz"), "us*Hz": ("us", "Hz")}[self.as_quantity]
+            sr = {"kHz": 250 * u.kHz, "MHz": 0.25 * u.MHz, "Hz": 250000 * u.Hz}[self.ru]
         else:
             dt = S.real("dt")
             S.assume(dt > Fraction(1, 10**9))
@@ -96,12 +99,13 @@ class IntShift(Unit):
             full = np.broadcast_to(pad, self.sshape)
         shift = sh
         if self.as_quantity:
-            # shift given as a time Quantity in ms: s samples = s * 0.004 ms
-            f = Fraction(4, 1000)
+            # shift given as a time Quantity: s samples = s * 4 us
+            qun = {"ms": u.ms, "us": u.us, "s": u.s}[self.qu]
+            f = Fraction(4, 10**6) / Fraction(qun.to(u.s)).limit_denominator(10**9)
             if S.symbolic:
-                shift = S.quantity((sh * f) if self.shift_shape == () else SymND(sh) * f, u.ms)
+                shift = S.quantity((sh * f) if self.shift_shape == () else SymND(sh) * f, qun)
             else:
-                shift = (np.asarray(sh, dtype=float) * float(f)) * u.ms
+                shift = (np.asarray(sh, dtype=float) * float(f)) * qun
         return {"sig": sig, "z": z, "shift": shift, "full": full, "dt": dt}
 
     def call(self, a):
@@ -324,6 +328,10 @@ def units(tier):
             us.append(IntShift(N, ss, sh, cplx=False, crop=(N % 2 == 0), t0=False))
         us.append(IntShift(N, (2,), (2,), cplx=True, crop=True, as_quantity=True))
         us.append(IntShift(N, (), (), cplx=False, crop=False, as_quantity=True))
+        if N in (2, 3):
+            us.append(IntShift(N, (2,), (), cplx=True, crop=(N == 2), as_quantity="us*kHz" if N == 2 else "s*MHz"))
+        if N == 4:
+            us.append(IntShift(N, (), (), cplx=True, crop=True, as_quantity="us*Hz"))
     # (ii) real-valued shifts
     for N in ((2, 4) if tier == "quick" else (1, 2, 4)):
         for ss, sh in (((), ()), ((2,), (2,)), ((2,), ()), ((2,), (1,)), ((2, 2), (2, 1)), ((2, 2), (2,))):
